@@ -273,5 +273,43 @@ def r20_4(ctx):
     return r
 
 
+def r20_5(ctx):
+    """the ring keeps free-running head/tail counters and reduces them modulo capacity only to address a slot.
+    Occupancy (empty, full, how many elements remain to drop) can only be decided on the unreduced counters:
+    once reduced, a full ring and an empty ring look the same - a Drop that compares slot indices leaks every
+    queued sample of a full ring, a pop that does so returns nothing from it."""
+    r = RuleResult("R20.5", "K6", "ring occupancy is decided on the free-running counters, never on slot indices")
+    n = 0
+    for b in ctx.facts.bodies(pred=lambda nm: "media::spsc::SpscRing" in nm):
+        if "::tests::" in b.name:
+            continue
+        for bi, si, st in b.assigns():
+            rv = st["rv"]
+            if rv["r"] != "bin" or rv["op"] not in ("Eq", "Ne", "Lt", "Le", "Gt", "Ge"):
+                continue
+            ta, tb = b.term_operand(rv["a"]), b.term_operand(rv["b"])
+
+            def cursorish(t):
+                return any(mir.has_field(e, "head") or mir.has_field(e, "tail") for e in core.expand_vars(b, t, 2))
+            if not (cursorish(ta) and cursorish(tb)):
+                continue          # e.g. the bounds check of buffer[idx] against buffer.len()
+            reduced = []
+            for t in (ta, tb):
+                for e in core.expand_vars(b, t, 2):
+                    if mir.has(e, lambda y: y[0] == "bin" and y[1] == "Rem" and mir.has_field(y, "capacity")):
+                        if t not in reduced:
+                            reduced.append(t)
+            n += 1
+            if reduced:
+                r.violate(b.name, "cmp:reduced-cursor", b.where(bi, si),
+                          "ring occupancy decided by comparing a cursor reduced modulo capacity (%s): a full ring is indistinguishable "
+                          "from an empty one" % mir.show(reduced[0], 60))
+            else:
+                r.ok({"site": b.where(bi, si), "compares": "%s %s %s" % (mir.show(ta, 40), rv["op"], mir.show(tb, 40))} if n <= 8 else None)
+    r.samples = [x for x in r.samples if x]
+    r.need("cursor comparisons in spsc.rs", n, 3)
+    return r
+
+
 def run(ctx):
-    return [r20_1(ctx), r20_2(ctx), r20_3(ctx), r20_4(ctx)]
+    return [r20_1(ctx), r20_2(ctx), r20_3(ctx), r20_4(ctx), r20_5(ctx)]
